@@ -18,28 +18,28 @@ from rv.gen import lastext
 
 ID = "C19"
 LEVEL = "fault_enumeration"
-ALPHA = ". : \" ' - = [ ( ) ] \\ a 1".split(" ") + [" "]
+ALPHA = ". : \" ' - = [ ( ) ] \\ a 1 %".split(" ") + [" "]
 DOCUMENTED = ['"# Surface Coords: 1,000\' FNL & 2,000\' FWL"', "this line has no delimiters at all", "LATI      DEG", ".", ":", ". :", "..", "::",
               "a.", ".a", "a:", ":a", "a b c", "-----", "=====", "[", "(", "\\", "\"", "'", "a.b.c.d : e : f : g", "1000 lbf", "UWI . : :",
               "%MyComment line", "A.M 12:30:15 : t", "-999.25", "1670.0 123.45 2550.0", "STRT", "strt.m", "   .   :   ", "\t.\t:\t",
               "DEPT.M : 1 DEPTH : extra : colons", "JOBID . 184467440737095516160 : JOB TICKET", "X.  -99999999999999999999 : y", "BIG. 1e400 : z",
               "SMALL. -1e-400 : z", "N. nan : n", "I. -inf : i", "H. 0x1F : h", "U. 1_000 : u", "V. 9223372036854775808 : just too big", "W. 1,5e400 : w",
-              "E. 1e : e", "P. +.e5 : p", "L.M " + "9" * 400 + " : long integer", "K.K 1.7976931348623157e309 : k", "Z : 99999999999999999999999", "X.() 1 : y", ".[]", "what.[()] is : this", "Q.(( 5 : q", "R.)( : r", "S.[] : s", "*", "?", "$", "{", "}", "a\\b", "a]", "a)", "é.ü : ñ", "a.1 : x", "0", "0.", ".0"]
+              "E. 1e : e", "P. +.e5 : p", "L.M " + "9" * 400 + " : long integer", "K.K 1.7976931348623157e309 : k", "Z : 99999999999999999999999", " PCT%.  50 : cutoff", "100% : all done", "%.%: %", "a%sb.u 1 : x", "%d : 5", "X.() 1 : y", ".[]", "what.[()] is : this", "Q.(( 5 : q", "R.)( : r", "S.[] : s", "*", "?", "$", "{", "}", "a\\b", "a]", "a)", "é.ü : ñ", "a.1 : x", "0", "0.", ".0"]
 STEER_RE = re.compile(r"vers|wrap|dlm|null", re.I)
-RULE = ("junk lines: all %d strings of length <= 3 over the alphabet {. : \" ' - = [ ( ) ] \\ a 1 blank} (exhaustive), %d documented/"
+RULE = ("junk lines: all %d strings of length <= 3 over the alphabet {. : \" ' - = [ ( ) ] \\ a 1 %% blank} (exhaustive), %d documented/"
         "adversarial examples, random printable ASCII up to 200 characters, 5 000-character lines; excluded: lines starting "
         "with '~' and lines containing VERS/WRAP/DLM/NULL; sites: first/middle/last line position of every ~V, ~W, ~P and "
         "custom section (never ~C); counts 1..5 per file; bases: generated tagged files (v1.2 and v2.0) and readable corpus "
         "files; each (base, junk set) is read with and without ignore_header_errors. distinct = distinct (junk line, section "
         "kind, position class, base kind); non-trivial = junk that is not blank/comment"
-        % (sum(14 ** n for n in (1, 2, 3)), len(DOCUMENTED)))
+        % (sum(15 ** n for n in (1, 2, 3)), len(DOCUMENTED)))
 ASSUMPTIONS = [
     "a junk line that happens to parse becomes an additional item; genuine items must then still appear, unchanged and in order, as a subsequence",
     "session mnemonics of genuine items may receive a duplicate suffix when a junk line parses to the same name (original mnemonics may not change)",
 ]
-EXHAUSTIVE = "all junk strings of length <= 3 over the 14-character alphabet, each in a ~V, ~W, ~P and custom section"
+EXHAUSTIVE = "all junk strings of length <= 3 over the 15-character alphabet, each in a ~V, ~W, ~P and custom section"
 REQUIRED = ["reads_with_flag", "reads_without_flag", "without_flag_header_errors", "genuine_items_checked",
-            "data_comparisons", "section_V", "section_W", "section_P", "section_X"]
+            "data_comparisons", "plans_with_repeated_junk_line", "section_V", "section_W", "section_P", "section_X"]
 SOFT_DEADLINE = {"quick": 90, "thorough": 1500}
 LEVEL_TEXT = ("Fault enumeration: the short junk-line space is enumerated completely at every section kind; longer lines are "
               "sampled; each faulty file is compared with its junk-free base (conservation of genuine items and data).")
@@ -198,7 +198,14 @@ def run_case(case, ctx):
         for j in case["junk"]:
             for (kind, title, lo, hi) in secs:
                 pos = rng.choice(sorted({lo, (lo + hi) // 2, hi}))
-                plans.append([(j, kind, title, pos, "first" if pos == lo else "last" if pos == hi else "middle")])
+                plan = [(j, kind, title, pos, "first" if pos == lo else "last" if pos == hi else "middle")]
+                if ("." in j or ":" in j) and len(j) < 400:
+                    # "forall counts": the same line again (and a third time) elsewhere in the same section
+                    for _ in range(rng.choice([1, 1, 2])):
+                        p2 = rng.randint(lo, hi)
+                        plan.append((j, kind, title, p2, "first" if p2 == lo else "last" if p2 == hi else "middle"))
+                    ctx.count("plans_with_repeated_junk_line")
+                plans.append(plan)
     else:
         plan = []
         for j in case["junk"]:
